@@ -21,7 +21,7 @@ OPS = ["eval", "basis", "insert", "insert_remove", "elevate", "elevate_reduce", 
        "div", "fit_curve", "fit_points", "integrate", "rational_eval", "rational_insert", "fit_jump", "fit_points_unordered",
        "rational_insert1", "rational_split", "rational_splitknot", "rational_elevate"]
 # operations repeated on LARGE curves (18-20 control points: linear systems beyond 16 unknowns)
-LARGE_OPS = ["insert_remove", "elevate_reduce", "fit_points", "fit_curve", "mul", "split_join"]
+LARGE_OPS = ["insert_remove", "elevate_reduce", "fit_points", "fit_curve", "split_join"]   # ("mul" of two 20-point cubics takes 20 s per exact run: too close to any time limit)
 GENERIC = {"eval", "insert", "elevate", "split"}
 
 
